@@ -160,6 +160,17 @@ class Shim:
                 shim.tick("close-fd")
                 os.close(fd)
 
+            def unlink(self, p):
+                shim.tick("unlink")
+                os.unlink(p)
+                shim.tick("unlinked")
+
+            remove = unlink
+
+            def listdir(self, d="."):
+                shim.tick("listdir")
+                return sorted(os.listdir(d))
+
             def __getattr__(self, name):
                 return getattr(os, name)
 
@@ -184,6 +195,20 @@ class Shim:
                 shutil.copy(a, b)
                 shim.tick("copy-done")
 
+        class FakeGlob:
+            @staticmethod
+            def glob(pattern, **kw):
+                import glob as _g
+                shim.tick("glob")
+                return sorted(_g.glob(pattern, **kw))
+
+            iglob = glob
+
+            @staticmethod
+            def escape(p):
+                import glob as _g
+                return _g.escape(p)
+
         class FakeSqlite:
             OperationalError = sqlite3.OperationalError
             DatabaseError = sqlite3.DatabaseError
@@ -198,8 +223,9 @@ class Shim:
                 if not existed:
                     shim.tick("created")
                 return c
-        self.saved = {n: DBM.__dict__[n] for n in ("os", "tempfile", "shutil", "sqlite3") if n in DBM.__dict__}
-        for n, fake in (("os", FakeOS), ("tempfile", FakeTemp), ("shutil", FakeShutil), ("sqlite3", FakeSqlite)):
+        self.saved = {n: DBM.__dict__[n] for n in ("os", "tempfile", "shutil", "sqlite3", "glob") if n in DBM.__dict__}
+        for n, fake in (("os", FakeOS), ("tempfile", FakeTemp), ("shutil", FakeShutil), ("sqlite3", FakeSqlite),
+                        ("glob", FakeGlob)):
             if n in self.saved:
                 setattr(DBM, n, fake)
 
@@ -272,6 +298,14 @@ def run_db_script(sc):
             c.execute("INSERT INTO version (version) VALUES (?)", (init["version"],))
             c.commit()
             c.close()
+        nbs = {}
+        for nm in sc.get("neighbours") or ():
+            c = sqlite3.connect(os.path.join(d, nm))
+            c.executescript(DBM.get_schema("usage", DBM.USAGEDB_TARGET_VERSION))
+            c.execute("INSERT INTO version (version) VALUES (?)", (DBM.USAGEDB_TARGET_VERSION,))
+            c.commit()
+            c.close()
+            nbs[nm] = open(os.path.join(d, nm), "rb").read()
         before = {f: open(os.path.join(d, f), "rb").read() for f in os.listdir(d)}
         tables = sorted(init["rows"]) if isinstance(init, dict) else []
         rows0 = rows_dump(path, tables) if tables else {}
@@ -297,6 +331,8 @@ def run_db_script(sc):
         if tables and os.path.exists(path):
             r1 = rows_dump(path, tables)
             obs["rows_kept_after_first"] = all(r1.get(t) == rows0[t] for t in tables)
+        elif tables:
+            obs["rows_kept_after_first"] = all(rows0[t] == [] for t in tables)
         bk = [f for f in os.listdir(d) if "backup" in f]
         if sc.get("check_backup") and obs["first"] is None:
             obs["backup_identical"] = bool(bk) and open(os.path.join(d, bk[0]), "rb").read() == before.get("relay.sqlite")
@@ -330,6 +366,9 @@ def run_db_script(sc):
                     bk2 = [f for f in os.listdir(d) if "backup" in f]
                     obs["backup_identical_after_restart"] = bool(bk2) and \
                         open(os.path.join(d, bk2[0]), "rb").read() == before.get("relay.sqlite")
+        if nbs:
+            obs["neighbours_kept"] = all(os.path.exists(os.path.join(d, nm)) and
+                                         open(os.path.join(d, nm), "rb").read() == data for nm, data in nbs.items())
     finally:
         shutil.rmtree(d, ignore_errors=True)
     return obs
